@@ -991,7 +991,7 @@ func (c *Ctx) trueImpliesValidRune(fn *ssa.Function, param *ssa.Parameter) bool 
 		return knownValid(at)
 	}
 	found := false
-	for _, b := range fn.Blocks {
+	for _, b := range blocksOf(fn) {
 		if ret, ok := b.Instrs[len(b.Instrs)-1].(*ssa.Return); ok {
 			found = true
 			if !okValue(ret.Results[0], b, 0) {
